@@ -223,6 +223,11 @@ fn parse_once(acc: &mut Acc, s: &str) {
     }
 }
 
+fn fold_traps() -> &'static [char] {
+    static T: std::sync::OnceLock<Vec<char>> = std::sync::OnceLock::new();
+    T.get_or_init(|| (0x80u32..=0x10FFFF).filter_map(char::from_u32).filter(|c| c.to_uppercase().chain(c.to_lowercase()).any(|x| x.is_ascii_alphabetic())).collect())
+}
+
 fn parsing(acc: &mut Acc, tier: Tier) {
     let mut names: Vec<String> = vec![];
     for i in 0..7 {
@@ -261,6 +266,23 @@ fn parsing(acc: &mut Acc, tier: Tier) {
                     let mut z = cs.clone();
                     z.remove(i);
                     seen.insert(z.iter().collect());
+                }
+            }
+        }
+        // every non-ASCII character whose Unicode upper- or lower-case form contains an ASCII letter (long s, dotless i,
+        // Kelvin sign, sharp s, the ff / fi / st ligatures, ...), in place of every one and every two characters:
+        // only ASCII case folding is allowed to make a name match
+        for base in [n.clone(), n.to_ascii_lowercase(), n.to_ascii_uppercase()] {
+            let cs: Vec<char> = base.chars().collect();
+            for &t in fold_traps() {
+                for i in 0..cs.len() {
+                    let mut y = cs.clone();
+                    y[i] = t;
+                    seen.insert(y.iter().collect());
+                    if i + 1 < cs.len() {
+                        y.remove(i + 1);
+                        seen.insert(y.iter().collect());
+                    }
                 }
             }
         }
@@ -421,9 +443,54 @@ fn sets(acc: &mut Acc) {
     check_eq!(acc, "WeekdaySet::from_array", set_bits(WeekdaySet::from_array([Weekday::Sun, Weekday::Mon, Weekday::Sun])), 0b1000001u8, "WeekdaySet::from_array([Sun, Mon, Sun])".to_string());
     check_eq!(acc, "WeekdaySet::from_array", set_bits(WeekdaySet::from_array(WD)), 127u8, "WeekdaySet::from_array(all)".to_string());
     check_eq!(acc, "WeekdaySet::from_array", set_bits(WeekdaySet::from_array::<0>([])), 0u8, "WeekdaySet::from_array([])".to_string());
+    // every array of 1..=9 weekdays (with repeats, any order), and long arrays whose new day comes last
+    from_array_all::<1>(acc);
+    from_array_all::<2>(acc);
+    from_array_all::<3>(acc);
+    from_array_all::<4>(acc);
+    from_array_all::<5>(acc);
+    from_array_all::<6>(acc);
+    from_array_all::<7>(acc);
+    from_array_all::<8>(acc);
+    from_array_all::<9>(acc);
+    for last in 0..7usize {
+        let mut a = [WD[(last + 1) % 7]; 300];
+        a[299] = WD[last];
+        let want = 1u8 << last | 1 << ((last + 1) % 7);
+        check_eq!(acc, "WeekdaySet::from_array", set_bits(WeekdaySet::from_array(a)), want, format!("WeekdaySet::from_array([{:?}; 299] then {:?})", WD[(last + 1) % 7], WD[last]));
+    }
 }
 
 /// DFS over all next / next_back sequences of the real iterator, in lock-step with a deque
+fn from_array_all<const N: usize>(acc: &mut Acc) {
+    let mut idx = [0usize; N];
+    loop {
+        let mut a = [Weekday::Mon; N];
+        let mut want = 0u8;
+        for k in 0..N {
+            a[k] = WD[idx[k]];
+            want |= 1 << idx[k];
+        }
+        acc.transitions += 1;
+        let got = set_bits(WeekdaySet::from_array(a));
+        if got != want {
+            acc.violation_lazy("WeekdaySet::from_array:sequence", || (format!("WeekdaySet::from_array({:?})", a), format!("{:07b}", want), format!("{:07b}", got)));
+        }
+        let mut k = N;
+        loop {
+            if k == 0 {
+                return;
+            }
+            k -= 1;
+            idx[k] += 1;
+            if idx[k] < 7 {
+                break;
+            }
+            idx[k] = 0;
+        }
+    }
+}
+
 fn iter_dfs<I: DoubleEndedIterator<Item = Weekday> + ExactSizeIterator + Clone>(acc: &mut Acc, it: I, rest: &mut Vec<Weekday>, lo: usize, hi: usize, nones: u32, path: &mut String, seen_states: &mut BTreeSet<(Vec<usize>, u32)>) {
     // rest[lo..hi] is what the reference still has to yield
     acc.transitions += 2;
